@@ -15,14 +15,17 @@ from checks import scan_common as sc
 
 CLAIM = {
     "level": "proof",
-    "text": "Coq theorems over one model text with a dialect switch (XGo scanner / installed go/scanner): equal token numbering and "
-            "keyword lookup, the divergence witnesses ('~', newline after '!' and '...', implicit semicolon around a trailing comment, "
-            "line numbers above 1<<30), and the agreement theorem on inputs where no extension / divergent branch is taken; both "
-            "dialects are tied to both real scanners by exhaustive numeric/string spellings and seeded lexeme sequences on every run, "
-            "and the two real scanners are compared directly.",
-    "note": "Trusted: Coq kernel, extraction, harness. 'No extension branch' is decided from the XGo scanner's own output (no RAT/UNIT/"
-            "CSTRING/PYSTRING/?/=>/->/<>/$ token, no '#' comment). Error offsets are compared as sets (the XGo scanner reports the "
-            "errors of a comment it looked ahead through twice). The dimensions with known divergences are explored by a fixed set.",
+    "text": "Coq theorems over one model text with a dialect switch (XGo scanner / installed go/scanner): if the XGo run takes no extension "
+            "branch and none of the known divergent branches (decidable predicate go_like, evaluated by the model) both dialects return "
+            "identical tokens and errors (C16_xgo_eq_go_on_go_lexemes); equal token numbering and keyword lookup; the divergence witnesses "
+            "('~', newline after '!' and '...', implicit semicolon around a trailing comment, line numbers above 1<<30). Both dialects are "
+            "tied to both real scanners on every run (exhaustive numeric/string spellings, token-level sequences, seeded lexeme "
+            "sequences), the real scanners are compared directly, and wherever go_like holds they must be identical.",
+    "note": "Trusted: Coq kernel, extraction, harness. 'No extension branch' in the direct comparison is decided from the XGo scanner's own "
+            "output (no RAT/UNIT/CSTRING/PYSTRING/?/=>/->/<>/$ token, no '#' comment). Error offsets are compared as sets there (the XGo "
+            "scanner reports the errors of a comment it looked ahead through twice); under go_like they must be the same sequence. go_like "
+            "is slightly stronger than necessary in two stated places (block comment between two tokens of a line while a semicolon is "
+            "pending; comment/illegal character right after '!' or '...'). The dimensions with known divergences are explored by a fixed set.",
 }
 
 NUM_ALPHA = [b"0", b"1", b"7", b"9", b"_", b".", b"x", b"b", b"o", b"e", b"p", b"+", b"-", b"i"]
